@@ -523,8 +523,9 @@ impl<'tcx> Cx<'tcx> {
                     }
                 }
             }
-            ExprKind::Index(b, i, _) => {
+            ExprKind::Index(b, i, bsp) => {
                 set!("index");
+                o.push(("bsp", Val::Str(span_loc(tcx, bsp))));
                 o.push(("e", self.expr(tr, b)));
                 o.push(("i", self.expr(tr, i)));
                 if let Some(did) = tr.type_dependent_def_id(e.hir_id) {
